@@ -224,6 +224,9 @@ class DiscoRun:
                     if tgt not in again[key]:
                         self.v("C18.bare-collection-not-reachable", "%s: the bare repository collection %s exists (typed %s) but discovery does not reach it" % (self.layout(), tgt, key), step="collection", which=key)
                 self.count("bare_collections_checked", len(self.bare_targets))
+                for key, tgt in getattr(self, "untyped_targets", {}).items():
+                    if tgt not in again[key]:
+                        self.v("C18.untyped-collection-not-reachable", "%s: the repository %s holds only %s and carries no type; discovery does not reach it as such" % (self.layout(), tgt, key), step="collection", which=key)
             if i == 0 and c.get("upgrade_to_defaults") and c["frontend"] == "aiohttp":
                 # xandikos.web.main() calls create_principal(create_defaults=True) on every start;
                 # (xandikos/wsgi.py only does so when the principal directory is missing)
@@ -253,6 +256,13 @@ class DiscoRun:
                 rel = urllib.parse.unquote(home[len(pre):]) + name + "/"
                 preseed_collection(self.arena.root, rel, "bare", kind)
                 self.bare_targets[key] = home + name + "/"
+            if self.cfg.get("untyped", True):
+                # and repositories nobody typed: discovery goes by what they contain
+                self.untyped_targets = {}
+                for key, home, name, kind in (("calendars", found["homes"][0], "gitcal", "calendar"), ("addressbooks", found["homes"][1], "gitbook", "addressbook")):
+                    rel = urllib.parse.unquote(home[len(pre):]) + name + "/"
+                    preseed_collection(self.arena.root, rel, "untyped", kind)
+                    self.untyped_targets[key] = home + name + "/"
         finally:
             FS.active = a
 
